@@ -116,7 +116,9 @@ def run(tier, seed):
             [["input", 0, "priv", 1], ["input", 1, "pub", 2], ["bin", 2, "mul", 0, 0], ["bin", 3, "mul", 2, 2], ["bin", 4, "mul", 3, 3], ["bin", 5, "mul", 4, 1], ["un", 6, "neg", 5], ["bin", 7, "mul", 6, 6]]):
             for ins_ in ([1, 30, 105, 1], [1, 2 ** 130 + 1, -(2 ** 129), 1]):
                 cases.append(dict(cfg=dict(p=p, n=8, res=2, ign=1 if abs(ins_[1]) > 1000 else 0), prog=extra, ins=ins_))
-        for i, c in enumerate(cases): c.update(id=i, prove=(2 if i % 2 else 1), full=1)
+        import matrixcases
+        cases += matrixcases.midprove_cases(p)[:4]
+        for i, c in enumerate(cases): c.update(id=i, prove=(2 if (i % 2 or "prove_at" in c) else 1), full=1)
         try:
             recs = progs.run_impl_cases(cases, full=True, real_backend=name)
         except Exception as e:
